@@ -214,3 +214,11 @@ pub proof fn lemma_flat_words(ch: Seq<&SyntaxNode>)
     if trail == 1 { assert(z.drop_last() =~= Seq::<&SyntaxNode>::empty()); assert(z.last() == ch[n - 1]); assert(sig_concat(z) =~= Seq::<Seq<char>>::empty()); }
     else { assert(z =~= Seq::<&SyntaxNode>::empty()); }
 }
+
+/// the children of an argument list from its opening parenthesis up to (not including) the closing one: a contiguous run
+pub uninterp spec fn paren_untyped_s<'a>(args: &'a SyntaxNode) -> Seq<&'a SyntaxNode>;
+#[verifier::external_body]
+pub proof fn pf_paren_untyped(args: &SyntaxNode)
+    requires tree_wf(args),
+    ensures exists|a: int, b: int| 0 <= a <= b <= args.children_s().len() && paren_untyped_s(args) == #[trigger] args.children_s().subrange(a, b),
+{}
